@@ -1207,7 +1207,11 @@ func runHist(t *testing.T, seed int64, n int, out *Out) {
 				}
 			}
 			h.stickyPool = 0
-			if h.r.Intn(25) == 0 && outage == 0 {
+			batchEvery := 25
+			if strings.HasPrefix(h.focus, "perp.") || strings.HasPrefix(h.focus, "lp.") {
+				batchEvery = 9 // position-focused histories: sharp moves with everything named in one message are frequent
+			}
+			if h.r.Intn(batchEvery) == 0 && outage == 0 {
 				// a sharp price move and, IN THE SAME BLOCK (after the begin-blocker sweep has run), one third-party message
 				// naming every open position in every list: several positions of one pool close inside one message
 				txs = append(txs, h.batchClose()...)
